@@ -383,6 +383,21 @@ func c04Run(c *engine.Ctx) {
 	}
 	c.Sample(map[string]any{"program": "def c: [1,2]; c | path(c | .[0])", "all_on": "[0] (the folded literal meets itself)", "const-array off": "invalid path (two constructed arrays)"})
 
+	// function definitions written inside the places the compiler folds (index and slice bounds, literal elements,
+	// object keys and values, unary operands): an undefined name in such a definition is a compile error in every configuration
+	c.Sub("definitions-in-constants")
+	if c.MineIdx(1) {
+		bodies := []string{"nosuch", "1", "f", "error", "$nosuch", "nosuch(1)"}
+		forms := []string{".[def f: B; 2]", ".a[def f: B; 1:]", ".[:def f: B; 1]", ".[def f: B; \"a\"]?", ".[def f: B; 0] = 1", ".a[def f: B; 0:1] |= [9]", "del(.[def f: B; 0])", "[def f: B; 1]", "[1, (def f: B; 2)]", "{a: (def f: B; 1)}",
+			"{(def f: B; \"a\"): 1}", "-(def f: B; 1)", ".[(def f: B; 2)]", "{a: [def f: B; 1]}", ".[def f: B; 1][def g: B; 0]?", "path(.[def f: B; 0])", ".[def f: B; -1]", ".[def f: B; 1.5]", ".[def f: B; null]?", "if (def f: B; true) then 1 else 2 end", "\"\\(def f: B; 1)\""}
+		for _, f := range forms {
+			for _, b := range bodies {
+				c04Program(c, strings.ReplaceAll(f, "B", b), []any{nil, univ.J(`[1,[2],3]`), univ.J(`{"a":[1,2,3]}`)}, cfgs)
+			}
+		}
+	}
+	c.Sample(map[string]any{"program": ".[def f: nosuch; 2]", "oracle": "the same compile outcome and outputs in all 16 configurations"})
+
 	c.Sub("towers")
 	ti := 0
 	towerPrograms(2, func(p string) {
